@@ -295,6 +295,8 @@ class FuncAlias(Structured):
                 if f.attr == '__call__':
                     return [], None, False
             d = self.fi.module.dotted(f)
+            if d in ('copy.copy', 'copy.deepcopy') and isinstance(recv, ast.Name) and recv.id not in st:
+                return [], None, False          # the standard-library functions, not a `.copy()` method of some object called `copy`
             if d and d.split('.')[0] in ('numpy', 'scipy', 'np', 'pandas', 'networkx', 'nx', 'itertools', 'pickle',
                                         'math', 'functools', 'warnings', 'torch', 'sparse', 'optimize', 'callbacks',
                                         'pd', 'os', 'json'):
@@ -435,6 +437,10 @@ class FuncAlias(Structured):
     def external(self, c, f, args, kw, st):
         name = U(f)
         last = name.split('.')[-1]
+        if isinstance(f, ast.Attribute) and (self.fi.module.dotted(f) or '') in ('copy.copy', 'copy.deepcopy') and len(args) == 1:
+            # copy.copy(x): a new object holding what x holds; copy.deepcopy(x): nothing shared
+            a0 = args[0]
+            return Val(FRESH, FRESH if last == 'deepcopy' else a0.elem, a0.kind, a0.ekind)
         if isinstance(f, ast.Attribute):
             recv = self.val(f.value, st)
             if last == 'copy' and not c.args:
